@@ -1,4 +1,5 @@
 mod r#gen;
+mod envelope;
 mod node;
 mod parsers;
 mod sample;
@@ -172,6 +173,12 @@ fn main() -> Result<()> {
       arg_value(&args, "--seed").map(|s| s.parse().unwrap()).unwrap_or(0),
       arg_value(&args, "--n").map(|s| s.parse().unwrap()).unwrap_or(300),
       args.iter().any(|a| a == "--exhaustive"),
+      &arg_value(&args, "--out").ok_or_else(|| anyhow!("--out"))?,
+    ),
+    "envelope" => envelope::run(
+      arg_value(&args, "--seed").map(|s| s.parse().unwrap()).unwrap_or(0),
+      arg_value(&args, "--n").map(|s| s.parse().unwrap()).unwrap_or(300),
+      arg_value(&args, "--max-len").map(|s| s.parse().unwrap()).unwrap_or(5),
       &arg_value(&args, "--out").ok_or_else(|| anyhow!("--out"))?,
     ),
     "crash-child" => runner::crash_child(&args[1..]),
